@@ -127,6 +127,7 @@ type pathDef struct {
 	get       bool               // DoH GET instead of POST
 	tls       bool               // stream: DoT instead of TCP
 	pipelined int                // stream: queries written back to back per burst
+	halfClose bool               // stream: the client half-closes right after writing a burst of 1…pipelined queries
 	thorough  bool               // only in the thorough tier
 }
 
@@ -136,6 +137,8 @@ var allPaths = []*pathDef{
 	{name: "dot", family: famStream, tls: true},
 	{name: "tcp-pipelined", family: famStream, pipelined: 6},
 	{name: "dot-pipelined", family: famStream, tls: true, pipelined: 6},
+	{name: "tcp-halfclose", family: famStream, pipelined: 5, halfClose: true},
+	{name: "dot-halfclose", family: famStream, tls: true, pipelined: 5, halfClose: true},
 	{name: "doh-h2-get", family: famDoH, variant: tbench.HTTP2, get: true},
 	{name: "doh-h2-post", family: famDoH, variant: tbench.HTTP2},
 	{name: "doh-h1-get", family: famDoH, variant: tbench.HTTP1TLS, get: true},
